@@ -471,6 +471,10 @@ class FieldStorage:
 
     @classmethod
     def parse_header(cls, s: str):
+        if '\n' in s:
+            # lines end with CRLF; the parameter pattern cannot get past a bare LF and would
+            # retry from every position (cubic time on a long line)
+            raise ValueError('bare LF inside a header line')
         htype, rest = s.split(':', 1)
         opt_iter = cls._patt.finditer(rest)
         hvalue = next(opt_iter).group(1).strip()
